@@ -1,3 +1,15 @@
-import GenlmModel.Model.Basic
+import Batteries.Tactic.Alias
+import GenlmModel.Proofs.Wfsa
+/-! # C12 — rational operations implement the algebra of weighted languages
+Exact-length path identities, every commutative semiring, operands with ε arcs and several
+initial/final states. -/
 namespace Genlm.Props.C12
+alias union_is_sum := Genlm.union_Pk
+alias concat_is_cauchy_product := Genlm.concat_Pk
+alias plus_unfolds := Genlm.kleenePlus_Pk
+alias reverse_reverses := Genlm.reverse_Pk
+alias injective_renaming_irrelevant := Genlm.mapStates_Pk
+alias lift_spec := Genlm.lift_spec
+alias from_string_spec := Genlm.fromString_spec
+alias zero_spec := Genlm.zero_spec
 end Genlm.Props.C12
